@@ -64,6 +64,8 @@ def parse_type(s: str):
             return (head, args[0])
         if head == 'dict':
             return ('dict', args[0], args[1])
+        if head == 'tmap':
+            return ('tmap', args[0], args[1])
         if head == 'pair':
             return ('pair',) + tuple(args)
         return ('obj', head)
@@ -106,6 +108,11 @@ def sort_of(ty):
                   ('val', ArraySort(sort_of(ty[1]), sort_of(ty[2]))))
         s = d.create()
         _dt[ty] = s
+    elif k == 'tmap':
+        # collections.defaultdict(<factory of an empty V>): a total map; a key that was never written reads as the
+        # factory value (reading it inserts the key in Python, which no modelled operation can observe: tmaps are
+        # only subscripted)
+        s = ArraySort(sort_of(ty[1]), sort_of(ty[2]))
     elif k == 'pair':
         d = Datatype('Pair_' + '_'.join(mangle(a) for a in ty[1:]))
         d.declare('mk', *[('f%d' % i, sort_of(a)) for i, a in enumerate(ty[1:])])
@@ -365,7 +372,6 @@ def set_card(s):
     return _card[s.ty](s.t)
 
 
-CARD_MONO = False
 
 
 def card_axioms():
@@ -396,11 +402,19 @@ def card_axioms():
         out.append(ForAll([A, x], Implies(Select(A, x), f(A) >= 1), patterns=[z3.MultiPattern(f(A), Select(A, x))]))
         out.append(ForAll([A, x, y2], Implies(And(f(A) == 1, Select(A, x), Select(A, y2)), x == y2),
                           patterns=[z3.MultiPattern(f(A), Select(A, x), Select(A, y2))]))
-        # monotonicity: A subset of B => card A <= card B; proper => strict
+    return out
+
+
+def card_mono_axioms():
+    """Monotonicity of card under inclusion (strict for proper inclusion) - true of finite sets (DESIGN section 6).
+    Instantiated for every pair of card terms, hence given only to the obligations that ask for it."""
+    out = []
+    for ty, f in _card.items():
+        et = ty[1]
+        A = FreshConst(sort_of(ty), 'cA')
+        B = FreshConst(sort_of(ty), 'cB')
         y = FreshConst(sort_of(et), 'cy')
         sub = ForAll([y], Implies(Select(A, y), Select(B, y)))
-        if not CARD_MONO:
-            continue
         out.append(ForAll([A, B], Implies(sub, f(A) <= f(B)), patterns=[z3.MultiPattern(f(A), f(B))]))
         out.append(ForAll([A, B], Implies(And(sub, f(A) == f(B)), A == B), patterns=[z3.MultiPattern(f(A), f(B))]))
     return out
@@ -547,6 +561,8 @@ def val_eq(a, b, fields=None):
             return a.t == b.t
         raise TypeError('== between %r and %r' % (a.ty, b.ty))
     k = a.ty[0]
+    if k == 'tmap':
+        return a.t == b.t
     if k == 'seq':
         return seq_eq(a, b)
     if k == 'set':
